@@ -1,12 +1,15 @@
 #!/bin/bash
 # Apply each seeded change to /repo in turn, run the listed checks (default: its own property's), undo it.
-# usage: tools/seeded_matrix.sh [all|own] > matrix.txt     (never run while another job uses /repo)
+# usage: tools/seeded_matrix.sh [all|own] [dir-glob] > matrix.txt     (never run while another job uses /repo)
+#   e.g. tools/seeded_matrix.sh own 'C??-r2'
 cd "$(dirname "$0")/.."
 MODE=${1:-own}
+GLOB=${2:-C*}
 ALL="C01 C02 C03 C04 C05 C06 C07 C08 C09 C10 C11 C12 C13 C14 C15 C16 C17 C18 C19 C20"
 git -C /repo diff --quiet || { echo "/repo has local changes"; exit 2; }
-for id in $ALL; do
-  git -C /repo apply seeded/$id/patch.diff || { echo "$id: patch does not apply"; continue; }
+for dir in seeded/$GLOB; do
+  name=$(basename $dir); id=${name:0:3}
+  git -C /repo apply "$PWD/$dir/patch.diff" || { echo "$name: patch does not apply"; continue; }
   checks=$id; [ "$MODE" = all ] && checks=$ALL
   for p in $checks; do
     out=$(timeout 3000 ./check $p --tier quick 2>&1); rc=$?
@@ -19,7 +22,7 @@ try:
 except Exception: print('')
 PY
 )
-    echo "seeded=$id check=$p rc=$rc $key"
+    echo "seeded=$name check=$p rc=$rc $key"
   done
   git -C /repo checkout -- .
 done
